@@ -40,10 +40,11 @@ pub fn opt<T: std::fmt::Display>(o: Option<T>) -> String {
 
 /// run an operation script on an iterator; the bounds are the four traits the
 /// documentation promises
-pub fn run_iter<I, T, F>(mut it: I, toks: &[&str], show: F) -> String
+pub fn run_iter<I, T, F, M>(mut it: I, toks: &[&str], show: F, minmax: M) -> String
 where
     I: Iterator<Item = T> + DoubleEndedIterator + ExactSizeIterator + FusedIterator,
     F: Fn(T) -> String,
+    M: Fn(I, bool) -> Option<T>,
 {
     let mut out: Vec<String> = Vec::new();
     let mut i = 0;
@@ -82,6 +83,8 @@ where
             "count" => format!("C{}", it.count()),
             "collect" => list(it.collect::<Vec<_>>()),
             "rev" => list(it.rev().collect::<Vec<_>>()),
+            "min" => opt(minmax(it, true).map(&show)),
+            "max" => opt(minmax(it, false).map(&show)),
             _ => "?".to_string(),
         };
         out.push(r);
